@@ -354,6 +354,7 @@ func (c *Cache) writeDump(w io.Writer) (int, error) {
 	gw.Name = dumpHeader
 
 	block := new(CacheDumpBlock)
+	blockLen := 0 // approximate marshaled length of block
 	writeBlock := func() error {
 		b, err := proto.Marshal(block)
 		if err != nil {
@@ -373,6 +374,7 @@ func (c *Cache) writeDump(w io.Writer) (int, error) {
 
 		en += len(block.GetEntries())
 		block.Reset()
+		blockLen = 0
 		return nil
 	}
 
@@ -393,9 +395,12 @@ func (c *Cache) writeDump(w io.Writer) (int, error) {
 			Msg:                 msg,
 		}
 		block.Entries = append(block.Entries, e)
+		blockLen += len(e.Key) + len(e.Msg) + 64 // 64: upper bound of the other fields and the framing
 
-		// Block is big enough for a write operation.
-		if len(block.Entries) >= dumpBlockSize {
+		// Block is big enough for a write operation. A msg can be as large as 64k, so
+		// the block is also flushed by length: readDump rejects blocks longer than
+		// dumpMaximumBlockLength.
+		if len(block.Entries) >= dumpBlockSize || blockLen >= dumpMaximumBlockLength/2 {
 			return writeBlock()
 		}
 		return nil
